@@ -21,7 +21,9 @@ LEVEL = 'exploration'
 RULE = ("doctests produced by the C01 program generator (all statement kinds and layouts, exact wants, prose and blank "
         "lines, google or freeform) and extended by value-returning expressions with repr wants, each given at a random "
         "file line L in 1..2000; each is formatted with {prompts on/off} x {wants on/off} x {line numbers off, "
-        "doctest-relative, file-relative}.  Non-trivial = at least two parts and one want; distinct by docstring hash")
+        "doctest-relative, file-relative}.  Non-trivial = at least two parts and one want; distinct by docstring hash.  "
+        "Plus the real docstrings of the repository (quick) and of the installed standard library and site-packages "
+        "(thorough, ~1.4 k): lines once and in order, and the rendered text parses to the same doctest")
 ASSUMPTIONS = [
     "re-parsing compares flattened (source line / want+mode) events, not part boundaries: when prose disappears from "
     "the rendered text neighbouring want-less parts legitimately merge",
@@ -35,7 +37,8 @@ NUM_RE = re.compile(r'^\s*(\d+) (.*)$')
 def required_cells(tier):
     return ['reparse', 'lines-once-in-order', 'prefix:off', 'want:off', 'linenos:doctest-relative',
             'linenos:file-relative', 'wrapper:google', 'wrapper:freeform', 'multi-line-want', 'eval-mode', 'single-mode',
-            'digits:1', 'digits:2', 'digits:3', 'digits:4']
+            'digits:1', 'digits:2', 'digits:3', 'digits:4', 'display-leaves-doctest-unchanged', 'corpus:repo'] + (
+                ['corpus:stdlib'] if tier == 'thorough' else [])
 
 
 def signature(dt):
@@ -216,9 +219,56 @@ def check_case(ctx, index, case_seed):
         ctx.cell('linenos:' + ('file-relative' if off else 'doctest-relative'))
         if off:
             ctx.cell('digits:%d' % len(str(L)))
+    # ------------------------------------------------ 4. displaying a doctest does not change it
+    if signature(dt) != s1 or dt.format_src(linenos=False, colored=False, want=True, prefix=True) != text:
+        bad('format-mutates', 'after being displayed under the other option sets the same DocTest object formats / parses '
+            'differently: the display changed the doctest')
+        return
+    ctx.cell('display-leaves-doctest-unchanged')
     ctx.cell('wrapper:' + layout.wrapper)
     if ctx.shard == 0:
         ctx.sample({'docstring': doc, 'given_at_line': L, 'formatted_with_file_numbers': t}, limit=2)
+
+
+def check_corpus(ctx, name, files):
+    """real docstrings: every line once and in order, and the rendered text parses to the same doctest"""
+    from xv.props import c13
+    for f, node, doc in c13.iter_docstrings(files):
+        for style in ('freeform', 'google'):
+            try:
+                exs, wl, _ = harness.collect(doc, style=style)
+            except Exception:
+                continue            # containment of broken real docstrings is C14's subject
+            for dt in exs:
+                try:
+                    s1 = signature(dt)
+                except Exception:
+                    continue
+                if not dt._parts:
+                    continue
+                case = {'corpus': name, 'file': f, 'node': node, 'style': style, 'num': dt.num, 'doc': doc}
+                ctx.evaluation()
+                text = dt.format_src(linenos=False, colored=False, want=True, prefix=True)
+                exp = []
+                for p in dt._parts:
+                    exp.extend(p.orig_lines)
+                    exp.extend(p.want_lines or [])
+                if text.split('\n') != exp:
+                    ctx.violation('lines', '%s::%s: format_src does not reproduce the source and want lines once and in order'
+                                  '\n%s' % (f, node, text), case)
+                    continue
+                try:
+                    exs2, _, _ = harness.collect(text, style='freeform')
+                    s2 = signature(exs2[0]) if len(exs2) == 1 else None
+                except Exception as ex:
+                    s2 = repr(ex)
+                if s2 != s1:
+                    ctx.violation('reparse', '%s::%s (%s): parsing the formatted text again gives %s\n--- formatted ---\n%s' % (
+                        f, node, style, 'a different doctest' if isinstance(s2, list) else s2, text), case)
+                    continue
+                ctx.cell('corpus:' + name)
+                if len(dt._parts) >= 2 and any(e[0] == 'want' for e in s1):
+                    ctx.nontrivial(text)
 
 
 def run_shard(ctx):
@@ -227,11 +277,22 @@ def run_shard(ctx):
     n = ctx.pick(3000, 50000)
     for idx in ctx.my_indices(n):
         check_case(ctx, idx, ctx.case_seed(idx))
+    import os
+    import sysconfig
+    from xv.props import c13
+    repo_files = c13.py_files(os.path.join(os.environ.get('XV_REPO', '/repo'), 'src'))
+    check_corpus(ctx, 'repo', repo_files[ctx.shard::ctx.nshards])
+    if not ctx.quick():
+        files = c13.py_files(sysconfig.get_paths()['stdlib']) + c13.py_files(sysconfig.get_paths()['purelib'])
+        check_corpus(ctx, 'stdlib', files[ctx.shard::ctx.nshards])
 
 
 def replay(case, ctx):
     import warnings
     warnings.simplefilter('ignore')
+    if 'corpus' in case:
+        check_corpus(ctx, case['corpus'], [case['file']])
+        return
     check_case(ctx, case['index'], case['case_seed'])
 
 
